@@ -97,6 +97,11 @@ def http_vectors(rng: random.Random, tier_: str) -> list[dict[str, Any]]:
     for tl in (0, 1):
         for el in ((95.5, 137.25) if tier_ == 'quick' else (12.0, 41.0, 95.5, 137.25, 3601.0)):
             add('hand_made.mpd', f'start={ast.strftime("%Y-%m-%dT%H:%M:%SZ")}&depth=30' + ('&timeline=1' if tl else ''), ast + sec(el), 'vtt')
+    # a stream whose timing reference is its audio track: the reference duration (1763328 / 44100 s) is not a whole number of
+    # ticks of the video timescale, so loop origins computed per loop and as a multiple of the loop count part after 3 loops
+    for tl in (0, 1):
+        for el in ((137.25, 3601.0) if tier_ == 'quick' else (12.0, 95.5, 120.0, 137.25, 3601.0, 86399.0, 400000.5)):
+            add('hand_made.mpd', f'start={ast.strftime("%Y-%m-%dT%H:%M:%SZ")}&depth=30' + ('&timeline=1' if tl else ''), ast + sec(el), 'aref')
     # the default window (30 minutes): partial walk (oldest, newest and a sample in between)
     add('hand_made.mpd', '', day + sec(50000.5))
     add('hand_made.mpd', 'timeline=1', day + sec(50003.999999))
@@ -182,6 +187,7 @@ def run(prop: str, tier_: str) -> int:
             from harness.core import REPO as _REPO
             da.add_fixture('bbb', directory='vtt', title='stored without tfdt', only={'bbb_v7', 'bbb_a1'},
                            extra=[(_REPO / 'tests' / 'fixtures' / 'webvtt.mp4', 'vtt_t2')])
+            da.add_fixture('bbb', directory='aref', title='audio is the timing reference', only={'bbb_v7', 'bbb_a1'}, ref_stem='bbb_a1')
             drv = HttpDriver(da)
             for i, v in enumerate(vecs):
                 hlines.extend(drv.live_manifest(i + 1, v.get('stream', 'bbb'), v['tmpl'], v['q'], v['now']))
